@@ -62,6 +62,9 @@ func (c *ctx) isolated(n int, stall time.Duration, f func(i int)) error {
 	stats := make([]map[string]int, workers)
 	aborted := make([]int, workers)
 	var wg sync.WaitGroup
+	var abortMu sync.Mutex
+	totalAborts := 0
+	const abortBudget = 8 // enough failing inputs: stop early instead of running into the global timeout
 	for w := 0; w < workers; w++ {
 		lo, hi := w*n/workers, (w+1)*n/workers
 		wg.Add(1)
@@ -70,6 +73,12 @@ func (c *ctx) isolated(n int, stall time.Duration, f func(i int)) error {
 			stats[w] = map[string]int{}
 			next := lo
 			for next < hi {
+				abortMu.Lock()
+				stop := totalAborts >= abortBudget
+				abortMu.Unlock()
+				if stop {
+					break
+				}
 				lines, done, reason := runChild(next, hi, stall, stats[w])
 				outs[w] = append(outs[w], lines...)
 				if done >= hi {
@@ -89,6 +98,9 @@ func (c *ctx) isolated(n int, stall time.Duration, f func(i int)) error {
 					outs[w] = append(outs[w], "end")
 				}
 				aborted[w]++
+				abortMu.Lock()
+				totalAborts++
+				abortMu.Unlock()
 				next = done + 1
 			}
 		}(w, lo, hi)
